@@ -2231,9 +2231,16 @@ class Filter(Blockwise):
                     # sum is in the predicate of parent, then removing self would
                     # alter the condition of parent because the sum changes, this is
                     # only relevant in broadcasting cases
-                    return self.frame[
-                        self.predicate & parent.predicate.substitute(self, self.frame)
-                    ]
+                    predicate = parent.predicate.substitute(self, self.frame)
+                    if not any(
+                        isinstance(e, (FilterAlign, Filter))
+                        and e.predicate._name == self.predicate._name
+                        for e in predicate.walk()
+                    ):
+                        # the predicate of parent may read the filtered rows through
+                        # another node than self (e.g. after a projection was pushed
+                        # below the filter); it then has fewer rows than self.frame
+                        return self.frame[self.predicate & predicate]
         if isinstance(parent, Projection):
             if self.frame._filter_passthrough_available(self, dependents):
                 # We can't push Projections through filters if the preceding operation
